@@ -39,8 +39,11 @@ MUTANTS = [
      "        self._extended_md = dict(extended_md)", "        self._extended_md = extended_md"),
     ("C07-found-md-kept", "C07", P + "common/executor.py",
      "        self._found_extended_md = defaultdict(list)\n        try:", "        try:"),
-    ("C07-no-defaults-at-start", "C07", P + "common/executor.py",
-     "            self.define_default_types()\n", ""),
+    ("C07-defaults-at-construction-again", "C07", P + "cms/aod/executor.py",
+     "        super().__init__(file_names, runner_name, template_dir_name, method_names)\n",
+     "        super().__init__(file_names, runner_name, template_dir_name, method_names)\n        define_default_cms_types()\n"),
+    ("C07-ast-rewritten-in-place-again", "C07", P + "common/executor.py",
+     "        a = copy.deepcopy(a, memo)\n", "        pass\n"),
     # ---------------- C02 (scoped clause)
     ("C02-swallow-oserror", "C02", P + "common/executor.py",
      "        j2_env.get_template(template_file).stream(info).dump(\n            str(final_dir / template_file)\n        )",
